@@ -12,6 +12,7 @@ from nrel.hive.reporting.vehicle_event_ops import (
 )
 from nrel.hive.state.simulation_state import simulation_state_ops
 from nrel.hive.state.vehicle_state.out_of_service import OutOfService
+from nrel.hive.state.vehicle_state.vehicle_state_type import VehicleStateType
 from nrel.hive.util.exception import SimulationStateError
 from nrel.hive.util.typealiases import StationId, ChargerId
 from nrel.hive.util.typealiases import VehicleId
@@ -149,6 +150,17 @@ def _go_out_of_service_on_empty(
     #   to out of service.
     # - report stranded passengers if we're servicing a trip when this happens.
     next_state = OutOfService.build(vehicle_id)
+    vehicle = sim.vehicles.get(vehicle_id)
+    if (
+        vehicle is not None
+        and vehicle.vehicle_state.vehicle_state_type == VehicleStateType.DISPATCH_TRIP
+    ):
+        # release the request this vehicle was travelling to so it can be dispatched again
+        exit_error, exit_sim = vehicle.vehicle_state.exit(next_state, sim, env)
+        if exit_error:
+            return exit_error, None
+        elif exit_sim is not None:
+            sim = exit_sim
     return next_state.enter(sim, env)
 
 
